@@ -177,3 +177,47 @@ def run(F, rep):
             rep.fail('C17.O1', 'direct|%s' % g.short.split('::')[-1], g.where(refs[0]), '%s compares the model type with %s itself instead of using modelHasOdes()/modelHasNlas(): the other kinds that have ODEs/NLA systems are treated differently here than in the sibling emitters' % (g.short, sorted({x['n'] for x in refs})))
     if n_o < 2:
         raise AnalysisBroken('C17.O1: modelHasOdes/modelHasNlas vanished')
+
+    # ------------------------------------------------------------------ B: no method with an empty body
+    rep.rule('C17.B1', 'every method the generator emits gets its body through generateMethodBodyCode(), which substitutes the profile\'s empty-method statement (`pass` in Python) when nothing was generated: '
+                       'each replace(<...MethodString>, "[CODE]", body) has body = generateMethodBodyCode(...), and generateMethodBodyCode returns emptyMethodString for an empty body')
+    n_b = 0
+    for g in F.funcs.values():
+        if not g.file.endswith('/generator.cpp'):
+            continue
+        for c in g.walk():
+            if not (c.get('k') == 'Call' and c.get('fn') == 'replace' and len(c.get('c', [])) == 3 and render(c['c'][1]) == '"[CODE]"'):
+                continue
+            tmpl = c['c'][0]
+            getters = set()
+            stack = [tmpl]
+            seen_d = set()
+            while stack:
+                e = stack.pop()
+                for x in walk(e):
+                    if x.get('k') == 'Call' and x.get('mc') and (x.get('fn') or '').endswith('String'):
+                        getters.add(x['fn'])
+                    elif x.get('k') == 'Ref' and x.get('dk') == 'local' and x['d'] not in seen_d:
+                        seen_d.add(x['d'])
+                        stack += [v['c'][0] for v in g.walk() if v.get('k') == 'Var' and v.get('d') == x['d'] and v.get('c')]
+            meth = sorted(x for x in getters if x.endswith('MethodString') and x != 'emptyMethodString')
+            if not meth:
+                continue
+            n_b += 1
+            body = c['c'][2]
+            while body.get('k') in ('Construct', 'Cast', 'Paren', 'Temp') and len(body.get('c', [])) == 1:
+                body = body['c'][0]
+            ok = body.get('k') == 'Call' and body.get('fn') == 'generateMethodBodyCode'
+            rep.check(ok, 'C17.B1', '%s|%s' % (g.short.split('::')[-1], '+'.join(meth)[:60]), g.where(c),
+                      'the body of %s is inserted as `%s`, not through generateMethodBodyCode(): when nothing is generated for it (e.g. every state is an external variable) the Python profile emits a `def` without a body and the module does not load'
+                      % (meth[0], render(body)[:50]), 'body through generateMethodBodyCode')
+    if n_b < 6:
+        raise AnalysisBroken('C17.B1: %d method templates with a [CODE] placeholder found, 6 confirmed' % n_b)
+    mb = F.fn1('Generator::GeneratorImpl::generateMethodBodyCode')
+    t = ' '.join(render(r['c'][0]) for r in mb.walk() if r.get('k') == 'Return' and r.get('c'))
+    rep.check('emptyMethodString' in t and '.empty()' in t.replace(' ', ''), 'C17.B1', 'generateMethodBodyCode|empty-body', mb.where(),
+              'generateMethodBodyCode no longer substitutes emptyMethodString for an empty body: `%s`' % t[:100], 'empty body -> indent + emptyMethodString')
+
+    # ------------------------------------------------------------------ Q: what ends up in computeComputedConstants
+    import requalify
+    requalify.rule_requalify(F, rep, 'C17.Q1', 'C17.Q2')
